@@ -167,6 +167,18 @@ func c12Level3() []*c12Shape {
 	return out
 }
 
+// level 2b: contents of the raw members the code decodes on its own (data of message /
+// control, details of an already_joined error)
+func c12Level2Variants() []*c12Shape {
+	var out []*c12Shape
+	for v := 1; v < c12Variants; v++ {
+		out = append(out, &c12Shape{Tag: "message", Id: "other", Msg: &c12SR{Sender: true, Recipient: v%2 == 0}, V: v},
+			&c12Shape{Tag: "control", Id: "other", Ctl: &c12SR{Sender: v%2 == 1, Recipient: true}, V: v},
+			&c12Shape{Tag: "error", Id: "other", Err: "aj", V: v})
+	}
+	return out
+}
+
 func c12UpdShape(target string, users, changed []c12Ent) *c12Shape {
 	return &c12Shape{Tag: "event", Id: "other", Ev: &c12Event{Target: target, Type: "update", Update: &c12Upd{Users: users, Changed: changed}}}
 }
@@ -256,6 +268,9 @@ func c12RandShape(r *vrng) *c12Shape {
 	}
 	if s.Hel != nil {
 		s.Hel = &c12Hello{Sid: true, Resume: r.chance(80), Server: r.chance(30)}
+	}
+	if (s.Msg != nil || s.Ctl != nil || s.Err != "") && r.chance(50) {
+		s.V = r.intn(c12Variants)
 	}
 	if s.Ev != nil {
 		e := &c12Event{Target: pick(r, c12Targets), Type: pick(r, c12Types)}
@@ -403,7 +418,7 @@ func c12Generate(env verifEnv) []*c12Case {
 	l2e := c12Level2Events(false)
 	l2o := c12Level2Other()
 	l3 := c12Level3()
-	l3e := c12Level3Entries(thorough)
+	l3e := append(c12Level2Variants(), c12Level3Entries(thorough)...)
 	for _, stage := range []string{"S0", "S1"} {
 		for _, idk := range []string{"other", "cur", "empty"} {
 			for _, s := range l1 {
@@ -815,5 +830,5 @@ func TestVerifC12(t *testing.T) {
 		sink.add(c.coq(), c, effects > len(c12Prefix(strings.SplitN(c.Stage, "/", 2)[0], true)) || len(c.Obs) > 3, c.Stage[:1]+string(key))
 	}
 	sink.stats.Notes = append(sink.stats.Notes, fmt.Sprintf("operations after which the server process was gone: %d", died))
-	sink.close("hostile federation peer (websocket server) against a real Hub in a child process: at every stage (before welcome, hello pending, after hello, after join, after a resumed reconnect) every type x member-presence pattern of ServerMessage / EventServerMessage (none, each single member, all; thorough: all subsets), list contents, undecodable and binary frames, drops / resets / refusals between any two messages, client requests while disconnected; non-trivial = the case shows an effect beyond its stage prefix; distinct = distinct op lists")
+	sink.close("hostile federation peer (websocket server) against a real Hub in a child process: at every stage (before welcome, hello pending, after hello, after join, after a resumed reconnect) every type x member-presence pattern of ServerMessage / EventServerMessage (none, each single member, all; thorough: all subsets), list contents (join / leave lists; entries of update.users / update.changed with every combination of the members "sessionId" and "sessionid" missing / number / null / own id / other string, and actor members), contents of the raw members the code decodes itself, undecodable and binary frames, drops / resets / refusals between any two messages, client requests while disconnected; non-trivial = the case shows an effect beyond its stage prefix; distinct = distinct op lists")
 }
